@@ -542,8 +542,13 @@ func runCase(run *lib.Run, c int64, base string) {
 	target := int64(lib.Pick(3, 4))
 	for s := 0; s < lib.Pick(1000, 3000) && !m.failed; s++ {
 		if rotate && s%97 == 60 && net.Nodes[X].Up {
-			net.Nodes[X].CS.VerifWALGroup().RotateFile()
-			run.Count("wal_rotations", 1)
+			// as the group's own size check does it: only a head file that exists and holds something
+			// is rotated (after a rotation the head is re-created by the next write)
+			g := net.Nodes[X].CS.VerifWALGroup()
+			if fi, err := os.Stat(g.Head.Path); err == nil && fi.Size() > 0 {
+				g.RotateFile()
+				run.Count("wal_rotations", 1)
+			}
 		}
 		if !adv.Step() {
 			break
